@@ -122,6 +122,13 @@ def run(ctx):
             if f.get("c") != want:
                 return False, "the cached lookup does not give the glyphs the OpenType rules assign (digest over all code points differs)"
         return True, ""
+    heavy = [l for l in lines if len(l) > 40000 and info[l][0] == "shipped"]
+    lines = [l for l in lines if l not in heavy]
+    if heavy:
+        # the model's direct lookup needs minutes for a table with thousands of groups: its own stage with a long per-line watchdog
+        lib.correspond(ctx, res, "h_cmap", "cmap", heavy, holds, exe_args=[BASE], per_chunk=1, line_timeout=1500,
+                       rule="cmap: the largest shipped cmap (thousands of format-12 groups), all 0x110000 code points by both lookup paths")
+        res.evaluations += 0x110000 * len(heavy) - len(heavy)
     lib.correspond(ctx, res, "h_cmap", "cmap", lines, holds, classify=lambda l, o: "%s -> %s" % (info[l][0], " ".join(("d=ok" if x[2:].isdigit() else x) if x.startswith("d=") else ("c=ok" if x[2:].isdigit() else x) if x.startswith("c=") else ("diff" if x != "diff=none" else "nodiff") for x in o.split())),
                    exe_args=[BASE], per_chunk=8,
                    rule="cmap: shipped fonts' cmap tables; synthesised format-4 (1..60 segments, idDelta incl. wrapping, idRangeOffset arrays with zero entries, adjacent/one-apart boundaries, block-boundary code points) with or without a format-12 subtable (consistent with the BMP or free); mutated tables. Every line compares all 0x110000 code points by both lookup paths")
